@@ -19,6 +19,7 @@ import DD.Capacity
 import DD.Capacity2
 import DD.Capacity3
 import DD.Capacity3Cofactor
+import DD.Capacity3Rename
 import DD.Driver
 open Std
 
@@ -80,6 +81,16 @@ def stepLineCap (s : CapSession) (line : String) : CapSession × String :=
           | none => { s' with caps := s'.caps.erase dst }, o)
       else (s', o)
     | _, _ => (s', o)
+  | [id, "copy", u, dst] =>
+    -- `copy_bdd(u, from, to)` into a target whose capacity was lowered
+    match parseNat? id, parseInt? u, parseNat? dst with
+    | some id, some u, some dst =>
+      match s.caps[dst]?, s.ms[id]? with
+      | some cap, some src =>
+        if id = dst then deleg else
+        runCapOn s dst sched (DRes.int <$> copyBddCapL cap src.tbl u) (DRes.int <$> copyBddCap cap src.tbl u)
+      | _, _ => deleg
+    | _, _, _ => deleg
   | id :: op :: args =>
     match parseNat? id with
     | none => deleg
@@ -128,6 +139,32 @@ def stepLineCap (s : CapSession) (line : String) : CapSession × String :=
           | some u, some [] => runCapOn s id sched (DRes.int <$> applyCapL cap aop u none none) (DRes.int <$> applyCap cap aop u none none)
           | some u, some [v] => runCapOn s id sched (DRes.int <$> applyCapL cap aop u (some v) none) (DRes.int <$> applyCap cap aop u (some v) none)
           | some u, some [v, w] => runCapOn s id sched (DRes.int <$> applyCapL cap aop u (some v) (some w)) (DRes.int <$> applyCap cap aop u (some v) (some w))
+          | _, _ => (s, "err OtherError")
+        | "compose", [u, d] =>
+          match parseInt? u, (parsePairs d).bind (fun ps => ps.mapM fun (k, r) => do
+              let r ← parseInt? r; pure (k, r)) with
+          | some u, some d =>
+            if old then runCapOn s id sched (DRes.int <$> composeCapO cap u d) (DRes.int <$> composeCapO cap u d)
+            else runCapOn s id sched (DRes.int <$> composeCapL cap u d) (DRes.int <$> composeCap cap u d)
+          | _, _ => (s, "err OtherError")
+        | "let_r", [u, d] =>
+          match parseInt? u, (parsePairs d).bind (fun ps => ps.mapM fun (k, r) => do
+              let r ← parseInt? r; pure (k, r)) with
+          | some u, some d =>
+            if old then runCapOn s id sched (DRes.int <$> letRefsG (composeCapO cap) d u) (DRes.int <$> letRefsG (composeCapO cap) d u)
+            else runCapOn s id sched (DRes.int <$> letRefsG (composeCapL cap) d u) (DRes.int <$> letRefsG (composeCap cap) d u)
+          | _, _ => (s, "err OtherError")
+        | "rename", [u, d] =>
+          match parseInt? u, parsePairs d with
+          | some u, some d =>
+            if old then runCapOn s id sched (DRes.int <$> renameCapO cap u d) (DRes.int <$> renameCapO cap u d)
+            else runCapOn s id sched (DRes.int <$> renameCapL cap u d) (DRes.int <$> renameCap cap u d)
+          | _, _ => (s, "err OtherError")
+        | "let_n", [u, d] =>
+          match parseInt? u, parsePairs d with
+          | some u, some d =>
+            if old then runCapOn s id sched (DRes.int <$> letNamesG (renameCapO cap) d u) (DRes.int <$> letNamesG (renameCapO cap) d u)
+            else runCapOn s id sched (DRes.int <$> letNamesG (renameCapL cap) d u) (DRes.int <$> letNamesG (renameCap cap) d u)
           | _, _ => (s, "err OtherError")
         | "cofactor", [u, d] =>
           match parseInt? u, (parsePairs d).bind (fun ps => ps.mapM fun (k, b) => do
